@@ -68,7 +68,7 @@ def gen(rnd, big=False):
         ids = dict(zip(keys, p))
     cm = rnd.choice(['both', 'both', 'charge', 'neither', 'mixed', 'mass-only-some'])
     atoms = []
-    resid = rnd.randint(1, 5)
+    resid = rnd.choice([0, 0, -3]) if rnd.random() < 0.15 else rnd.randint(1, 5)
     for i, k in enumerate(keys):
         if rnd.random() < 0.3:
             resid += rnd.choice([1, 1, 2, 10])
